@@ -439,9 +439,9 @@ def _ladder(ctx, m, fn) -> None:
 def run(ctx) -> None:
     ctx.explanation = EXPLANATION
     m, fn, paths = format_paths(ctx)
-    _direction(ctx, m, fn, paths)
-    _ladder(ctx, m, fn)
-    _closure(ctx, paths)
+    ctx.step(_direction, ctx, m, fn, paths)
+    ctx.step(_ladder, ctx, m, fn)
+    ctx.step(_closure, ctx, paths)
     hm = pmod("helpers")
     r = core.returns(hm.func("format_diff"))
     ctx.ob("FORWARD", "helpers.format_diff", len(r) == 1 and nun(r[0].value) == "difference_formatter.format(diff, is_now, absolute, locale)",
@@ -461,7 +461,7 @@ def run(ctx) -> None:
         ok = len(r) == 1 and nun(r[0].value) == "pendulum.format_diff(diff, is_now, absolute, locale)" and "is_now = other is None" in [nun(s) for s in core.body_no_doc(f2)]
         ctx.ob("FORWARD", f"{cls}.diff_for_humans", ok, f"{[nun(x.value) for x in r]}; is_now must mean `other is None`", mm.loc(f2))
     from . import C09
-    C09._digits(ctx)        # the counts put into the phrases for a plain Duration (Time differences, in_words) are its mixed-radix digits
+    ctx.step(C09._digits, ctx)        # the counts put into the phrases for a plain Duration (Time differences, in_words) are its mixed-radix digits
     ctx.expect_min("KEY-CLOSURE", 800)
     ctx.expect_min("PLACEHOLDERS", 800)
     ctx.expect_min("DIRECTION", 40)
